@@ -3,6 +3,7 @@ EXTENDS Span
 MC_Store1 == <<1>>
 MC_Kind1 == <<"new">>
 MC_None == {}
+MC_NoDups == {}
 MC_FormsNoRng == {"norng"}
 MC_ExNone == {FALSE}
 MC_ExBoth == {FALSE, TRUE}
